@@ -5,20 +5,20 @@ CHECKS = {
     "C01": {"quick": [("pr", 12000)], "thorough": [("pr", 150000)]},
     "C02": {"quick": [("co", 4000)], "thorough": [("co", 60000)]},
     "C03": {"quick": [("co", 4000)], "thorough": [("co", 60000)]},
-    "C04": {"quick": [("pr", 3000), ("cl", 3000), ("co", 800), ("gr", 150)], "thorough": [("pr", 60000), ("cl", 60000), ("co", 20000), ("gr", 5000)]},
+    "C04": {"quick": [("pr", 3000), ("cl", 3000), ("co", 800), ("gr", 150)], "thorough": [("pr", 60000), ("cl", 60000), ("co", 20000), ("gr", 2000)]},
     "C05": {"quick": [("co", 3000), ("cl", 8000)], "thorough": [("co", 40000), ("cl", 100000)]},
-    "C06": {"quick": [("bc", 30000)], "thorough": [("bc", 400000)]},
+    "C06": {"quick": [("bc", 30000)], "thorough": [("bc", 30000)]},
     "C07": {"quick": [("cl", 12000)], "thorough": [("cl", 250000)]},
     "C08": {"quick": [("pr", 4000), ("cl", 8000), ("co", 1500)], "thorough": [("pr", 60000), ("cl", 100000), ("co", 30000)]},
     "C09": {"quick": [("pr", 12000)], "thorough": [("pr", 150000)]},
-    "C10": {"quick": [("bc", 30000)], "thorough": [("bc", 400000)]},
+    "C10": {"quick": [("bc", 30000)], "thorough": [("bc", 30000)]},
     "C11": {"quick": [("cl", 12000)], "thorough": [("cl", 250000)]},
     "C12": {"quick": [("co", 4000), ("cl", 4000)], "thorough": [("co", 50000), ("cl", 80000)]},
     "C13": {"quick": [("co", 4000)], "thorough": [("co", 60000)]},
     "C14": {"quick": [("co", 4000)], "thorough": [("co", 60000)]},
-    "C15": {"quick": [("gr", 500)], "thorough": [("gr", 20000)]},
-    "C16": {"quick": [("gr", 500)], "thorough": [("gr", 20000)]},
-    "C17": {"quick": [("gr", 500)], "thorough": [("gr", 20000)]},
+    "C15": {"quick": [("gr", 500)], "thorough": [("gr", 8000)]},
+    "C16": {"quick": [("gr", 500)], "thorough": [("gr", 8000)]},
+    "C17": {"quick": [("gr", 500)], "thorough": [("gr", 8000)]},
     "C18": {"quick": [("pr", 12000)], "thorough": [("pr", 150000)]},
     "C19": {"quick": [("pr", 12000)], "thorough": [("pr", 150000)]},
     "C20": {"quick": [("cl", 12000)], "thorough": [("cl", 250000)]},
